@@ -21,7 +21,7 @@ def run(ctx):
         raise vlib.Infra("marshal driver failed: " + p.stderr[-2000:])
     lines = vlib.read_ndjson(tpath)
     bad, st = vlib.tlc_validate(ctx.scratch, "MarshalTrace", "MarshalTrace.cfg", lines, timeout=2400)
-    ctx.log("R2: %d choice vectors over 13 struct types + %d random values; R3: %d lines, %d rejected" % (len(cases), nrand, len(lines), len(bad)))
+    ctx.log("R2: %d choice vectors over the struct family + %d random values; R3: %d lines, %d rejected" % (len(cases), nrand, len(lines), len(bad)))
     v = vlib.Verdict("C18")
     for i, why in bad:
         line = lines[i]
